@@ -1,0 +1,11 @@
+//go:build verif
+
+// Contracts for package wslog, checked by /verif. Comments only.
+package wslog
+
+// C18: the process logger is called from every pipeline goroutine. A pooled
+// buffer goes back to the pool only after the line has been written from it.
+// (That the writer is used under h.mu is not expressed: the field w itself is
+// read without the lock by WithAttrs/WithGroup, which is harmless, and the
+// guarded clause speaks about field accesses, not about calls.)
+//@ before (*Handler).Handle Write freebuf props=C18
